@@ -321,7 +321,7 @@ def run(ctx):
     quick = ctx.tier == "quick"
     years = "{1, 2, 3, 4, 100, 400, 1582, 1583, 1600, 1899, 1900, 1901, 1969, 1970, 1999, 2000, 2001, 2015, 2019, 2020, 2021, 2024, 2026, 2100, 9998}"
     if not quick:
-        years = "1..2400"
+        years = "{" + ", ".join(str(y) for y in range(1, 2401)) + "}"       # (a cfg file cannot hold the interval 1..2400)
     ctx.model_check("CalendarMC", cfg_text="INIT Init\nNEXT Next\nINVARIANT Inv\nCONSTANTS\n  Years = %s\n" % years, timeout=3400)
     r = ctx.model_check("LiftMC", cfg_text=frames.mc_cfg({"MaxLen": 2 if quick else 3, "Emit": True}), timeout=3000)
     masks = sorted({tuple(j["mask"]) for j in r.json_lines if "mask" in j})
